@@ -234,11 +234,11 @@ macro_rules! ni_batch {
 }
 //@ harness name=aes128_ni_batch10_enc prop=C04,C20 tier=thorough bits=7072 stub=1 est=300 variants=aes:ni desc="Aes128 (AES-NI arm, arbitrary round keys) encrypt_blocks in place on 10 blocks (one full 9-wide batch + a tail of 1) at a symbolic buffer offset 0..15: output block i (i symbolic) equals the single-block call on block i; guard bytes unchanged; all states and contents"
 ni_batch!(aes128_ni_batch10_enc, crate::Aes128, 10, false, false);
-//@ harness name=aes128_ni_batch10_enc_b2b prop=C04,C20 tier=quick bits=7072 stub=1 variants=aes:ni est=270 need=6 desc="Aes128 (AES-NI arm) encrypt_blocks_b2b on 10 blocks: output block i (i symbolic) equals the single-block call; separate input unchanged"
+//@ harness name=aes128_ni_batch10_enc_b2b prop=C04,C20 tier=quick bits=7072 stub=1 variants=aes:ni est=285 need=6 desc="Aes128 (AES-NI arm) encrypt_blocks_b2b on 10 blocks: output block i (i symbolic) equals the single-block call; separate input unchanged"
 ni_batch!(aes128_ni_batch10_enc_b2b, crate::Aes128, 10, false, true);
 //@ harness name=aes128_ni_batch10_dec prop=C04,C20 tier=thorough bits=7072 stub=1 est=300 variants=aes:ni desc="Aes128 (AES-NI arm) decrypt_blocks in place on 10 blocks (9-wide batch + tail), symbolic offset: output block i equals the single-block call; guards unchanged"
 ni_batch!(aes128_ni_batch10_dec, crate::Aes128, 10, true, false);
-//@ harness name=aes128_ni_batch10_dec_b2b prop=C04,C20 tier=quick bits=7072 stub=1 variants=aes:ni est=270 need=6 desc="Aes128 (AES-NI arm) decrypt_blocks_b2b on 10 blocks: output block i equals the single-block call; separate input unchanged"
+//@ harness name=aes128_ni_batch10_dec_b2b prop=C04,C20 tier=quick bits=7072 stub=1 variants=aes:ni est=285 need=6 desc="Aes128 (AES-NI arm) decrypt_blocks_b2b on 10 blocks: output block i equals the single-block call; separate input unchanged"
 ni_batch!(aes128_ni_batch10_dec_b2b, crate::Aes128, 10, true, true);
 //@ harness name=aes128_ni_batch9_enc prop=C04 tier=thorough bits=6944 stub=1 est=300 variants=aes:ni desc="as batch10, n = 9 (exactly the parallel width), in place"
 ni_batch!(aes128_ni_batch9_enc, crate::Aes128, 9, false, false);
@@ -286,27 +286,27 @@ ni_harness!(aes128_history, 16 + 16 + 16 * 5 + 1, 70, |inp| {
 g_debug!(aes128_debug, crate::Aes128, "Aes128", generic::always);
 //@ harness name=aes128enc_debug prop=C19 tier=quick bits=5632 variants=aes:ni est=15 desc="Debug of Aes128Enc is key independent and names the type"
 g_debug!(aes128enc_debug, crate::Aes128Enc, "Aes128Enc", generic::always);
-//@ harness name=aes128dec_debug prop=C19 tier=quick bits=5632 variants=aes:ni est=10 desc="Debug of Aes128Dec is key independent and names the type"
+//@ harness name=aes128dec_debug prop=C19 tier=quick bits=5632 variants=aes:ni est=15 desc="Debug of Aes128Dec is key independent and names the type"
 g_debug!(aes128dec_debug, crate::Aes128Dec, "Aes128Dec", generic::always);
-//@ harness name=aes192_debug prop=C19 tier=quick bits=6656 variants=aes:ni est=15 desc="Debug of Aes192 is key independent and names the type"
+//@ harness name=aes192_debug prop=C19 tier=quick bits=6656 variants=aes:ni est=10 desc="Debug of Aes192 is key independent and names the type"
 g_debug!(aes192_debug, crate::Aes192, "Aes192", generic::always);
-//@ harness name=aes192enc_debug prop=C19 tier=quick bits=6656 variants=aes:ni est=15 desc="Debug of Aes192Enc is key independent and names the type"
+//@ harness name=aes192enc_debug prop=C19 tier=quick bits=6656 variants=aes:ni est=10 desc="Debug of Aes192Enc is key independent and names the type"
 g_debug!(aes192enc_debug, crate::Aes192Enc, "Aes192Enc", generic::always);
-//@ harness name=aes192dec_debug prop=C19 tier=quick bits=6656 variants=aes:ni est=15 desc="Debug of Aes192Dec is key independent and names the type"
+//@ harness name=aes192dec_debug prop=C19 tier=quick bits=6656 variants=aes:ni est=10 desc="Debug of Aes192Dec is key independent and names the type"
 g_debug!(aes192dec_debug, crate::Aes192Dec, "Aes192Dec", generic::always);
-//@ harness name=aes256_debug prop=C19 tier=quick bits=7680 variants=aes:ni est=15 desc="Debug of Aes256 is key independent and names the type"
+//@ harness name=aes256_debug prop=C19 tier=quick bits=7680 variants=aes:ni est=10 desc="Debug of Aes256 is key independent and names the type"
 g_debug!(aes256_debug, crate::Aes256, "Aes256", generic::always);
 //@ harness name=aes256enc_debug prop=C19 tier=quick bits=7680 variants=aes:ni est=15 desc="Debug of Aes256Enc is key independent and names the type"
 g_debug!(aes256enc_debug, crate::Aes256Enc, "Aes256Enc", generic::always);
 //@ harness name=aes256dec_debug prop=C19 tier=quick bits=7680 variants=aes:ni est=15 desc="Debug of Aes256Dec is key independent and names the type"
 g_debug!(aes256dec_debug, crate::Aes256Dec, "Aes256Dec", generic::always);
-//@ harness name=aes128_algname prop=C19 tier=quick bits=0 variants=aes:ni est=20 desc="AlgorithmName of Aes128 names AES and the key size"
+//@ harness name=aes128_algname prop=C19 tier=quick bits=0 variants=aes:ni est=15 desc="AlgorithmName of Aes128 names AES and the key size"
 g_algname!(aes128_algname, crate::Aes128, ["aes", "128"]);
-//@ harness name=aes192_algname prop=C19 tier=quick bits=0 variants=aes:ni est=20 desc="AlgorithmName of Aes192 names AES and the key size"
+//@ harness name=aes192_algname prop=C19 tier=quick bits=0 variants=aes:ni est=15 desc="AlgorithmName of Aes192 names AES and the key size"
 g_algname!(aes192_algname, crate::Aes192, ["aes", "192"]);
-//@ harness name=aes256_algname prop=C19 tier=quick bits=0 variants=aes:ni est=20 desc="AlgorithmName of Aes256 names AES and the key size"
+//@ harness name=aes256_algname prop=C19 tier=quick bits=0 variants=aes:ni est=15 desc="AlgorithmName of Aes256 names AES and the key size"
 g_algname!(aes256_algname, crate::Aes256, ["aes", "256"]);
-//@ harness name=aes128enc_algname prop=C19 tier=quick bits=0 variants=aes:ni est=20 desc="AlgorithmName of Aes128Enc names AES and the key size"
+//@ harness name=aes128enc_algname prop=C19 tier=quick bits=0 variants=aes:ni est=15 desc="AlgorithmName of Aes128Enc names AES and the key size"
 g_algname!(aes128enc_algname, crate::Aes128Enc, ["aes", "128"]);
-//@ harness name=aes256dec_algname prop=C19 tier=quick bits=0 variants=aes:ni est=20 desc="AlgorithmName of Aes256Dec names AES and the key size"
+//@ harness name=aes256dec_algname prop=C19 tier=quick bits=0 variants=aes:ni est=15 desc="AlgorithmName of Aes256Dec names AES and the key size"
 g_algname!(aes256dec_algname, crate::Aes256Dec, ["aes", "256"]);
